@@ -20,7 +20,6 @@ def sh(cmd, cwd=None, env=None, timeout=3600):
 def work(args):
     k, items = args
     wt = "/tmp/confirm_wt_%d" % k
-    sh("git -C /repo worktree remove --force %s; git -C /repo worktree add --detach %s HEAD" % (wt, wt))
     out = []
     for d in items:
         name = os.path.basename(d)
@@ -60,6 +59,9 @@ def work(args):
 
 
 chunks = [(k, cands[k::NW]) for k in range(NW)]
+for k in range(NW):      # worktrees are created one after the other (concurrent `git worktree add` calls collide on the lock)
+    wt = "/tmp/confirm_wt_%d" % k
+    sh("git -C /repo worktree remove --force %s; git -C /repo worktree prune; git -C /repo worktree add --detach %s HEAD" % (wt, wt))
 with ThreadPoolExecutor(NW) as ex:
     allres = [r for part in ex.map(work, chunks) for r in part]
 json.dump(allres, open("/verif/.work/confirm_seeded_%d.json" % os.getpid(), "w"), indent=1)
